@@ -80,7 +80,25 @@ def run(ck):
             src_vlrs = src_vlrs + ck.rng.sample(spec, ck.rng.randrange(1, 4))
             ck.count("source_has_other_LASF_Spec_vlrs")
         las = fio.make_las(ck.rng, cur, src, n, params, vlrs=src_vlrs, evlrs=evlrs)
-        if n and src >= 6 and (in_range or ck.rng.random() < 0.5):
+        if JOB[0] < len(pairs) and src >= 6 and tgt <= 5:
+            # first pass over all pairs: each narrower-in-the-target field in turn is the only one that does not fit (whatever the seed)
+            n = max(n, 3)
+            las = fio.make_las(ck.rng, cur, src, n, params, vlrs=src_vlrs, evlrs=evlrs)
+            only = ["none", "return_number", "number_of_returns", "classification"][(src + tgt) % 4]
+            in_range = only == "none"
+            a_ = las.points.array
+            a_["classification"] &= 31
+            a_["bit_fields"] &= 0x77
+            a_["classification_flags"] &= 0xC7
+            if only == "return_number":
+                a_["bit_fields"] = (a_["bit_fields"] & 0xF0) | 9
+            elif only == "number_of_returns":
+                a_["bit_fields"] = (a_["bit_fields"] & 0x0F) | (12 << 4)
+            elif only == "classification":
+                a_["classification"] = 40
+            ck.count("only_field_out_of_range:" + only)
+            las.update_header()
+        elif n and src >= 6 and (in_range or ck.rng.random() < 0.5):
             # each narrower-in-the-target field is brought into range independently, so that every single field gets to
             # be the only one that does not fit
             keep = ("all",) if in_range else tuple(f for f in ("classification", "return_number", "number_of_returns") if ck.rng.random() < 0.6)
